@@ -331,6 +331,22 @@ def decide(case, wctx):
         dropped = bool(exts) and not any(got.endswith(x) for x in exts)
         return viol("extension", {"expected": sorted(e["strict"]), "observed": got, "dropped": dropped},
                     "file name does not follow the keep_extension rule")
+    # Which dots of a multi-dot name are "the extension" is left open, but the choice must be the *same* when
+    # the extension is kept and when it is dropped: run the twin case (keep_extension flipped) and require one
+    # common (stem, extension) split that explains both names.
+    fobj = [d for d in case["inputs"] if d["kind"] == "file" and "{" + d["name"] in case["template"]]
+    own_ext = "." in re.sub(r"{[^}]*}", "", case["template"].rsplit("/", 1)[-1])
+    if len(fobj) == 1 and fobj[0]["fname"].count(".") >= 2 and not own_ext and len(names_a) == 1 and not case.get("_twin"):
+        twin = dict(case, keep_extension=not case["keep_extension"], _twin=True)
+        t = run_once(twin, wctx, "T")
+        tpaths = [x for x in t["argv"] if x != case["flag"] or not case["flag"]]
+        if t["calls"] == 1 and len(tpaths) == 1:
+            r["counters"]["keep_drop_twins_checked"] = 1
+            kept, dropped = (names_a[0], Path(tpaths[0]).name) if case["keep_extension"] else (Path(tpaths[0]).name, names_a[0])
+            ok = any(ext and kept == dropped + ext for _, ext in split_ext_candidates(fobj[0]["fname"])) or kept == dropped
+            if not ok:
+                return viol("extension", {"kept": kept, "dropped": dropped, "file": fobj[0]["fname"]},
+                            "the extension that is dropped is not the extension that is kept")
     if may:
         r["verdict"] = "may"
         r["counters"]["literal_before_file_ref_swallowed"] = 1
